@@ -2,8 +2,11 @@
 //!
 //! Bounded-exhaustive input enumeration (E2) + BFS / scripted frame-and-time sequences (E1), on
 //! real `Interface`s of the three media (Ethernet, raw IP, IEEE 802.15.4/6LoWPAN) with TCP
-//! (LISTEN / SYN-SENT / ESTABLISHED), UDP, ICMP (Ident / Udp / Tcp endpoints), raw, DNS (pending
-//! query) and DHCPv4 sockets. World configurations per medium: A (plain), B (raw sockets, SLAAC,
+//! (LISTEN / SYN-SENT / ESTABLISHED), UDP (two plain sockets whose application discards, and
+//! two ECHO servers on the LOWPAN_NHC boundary ports 0xf0bf / 0xf0ff whose application sends
+//! every datagram back, so that frames alone make the interface emit UDP), ICMP (Ident / Udp /
+//! Tcp endpoints), raw, DNS (pending query) and DHCPv4 sockets. Events of a sequence: one frame
+//! + poll, several frames queued before ONE poll, time advance + poll, clock jump without poll. World configurations per medium: A (plain), B (raw sockets, SLAAC,
 //! IPv6 peers, DHCP requesting), C (application has close()d the established connection:
 //! FIN-WAIT-1), and A with an IPv4-only / IPv6-only / empty address list (Ethernet, IP; 802.15.4:
 //! empty). See `run()` for the domains; `frames/seeds.rs` for the seed catalogue;
@@ -70,6 +73,9 @@ pub enum Ev {
     /// the clock moves on WITHOUT a poll (a host that slept): the next frame meets the
     /// interface at a far later instant than its timers were last serviced
     Jump(i64),
+    /// several frames queued in the device before ONE poll (no application step, no delayed
+    /// ACK, no egress pass between them)
+    Frames(Vec<Vec<u8>>),
 }
 fn evs_to_json(evs: &[Ev]) -> Value {
     Value::Array(
@@ -78,6 +84,7 @@ fn evs_to_json(evs: &[Ev]) -> Value {
                 Ev::Frame(f) => json!({"frame": hex(f)}),
                 Ev::Advance(ms) => json!({"advance_ms": ms}),
                 Ev::Jump(ms) => json!({"jump_ms": ms}),
+                Ev::Frames(fs) => json!({"frames_one_poll": fs.iter().map(|f| hex(f)).collect::<Vec<_>>()}),
             })
             .collect(),
     )
@@ -89,6 +96,8 @@ fn evs_from_json(v: &Value) -> Vec<Ev> {
                 .filter_map(|e| {
                     if let Some(h) = e.get("frame").and_then(|x| x.as_str()) {
                         Some(Ev::Frame(unhex(h)))
+                    } else if let Some(a) = e.get("frames_one_poll").and_then(|x| x.as_array()) {
+                        Some(Ev::Frames(a.iter().filter_map(|h| h.as_str().map(unhex)).collect()))
                     } else if let Some(ms) = e.get("jump_ms").and_then(|x| x.as_i64()) {
                         Some(Ev::Jump(ms))
                     } else {
@@ -176,6 +185,7 @@ fn run_events(cfg: Cfg, evs: &[Ev], want_log: bool) -> RunOut {
     for (i, ev) in evs.iter().enumerate() {
         let o = match ev {
             Ev::Frame(f) => w.inject(f),
+            Ev::Frames(fs) => w.inject_many(fs),
             Ev::Advance(ms) => w.advance(*ms),
             Ev::Jump(ms) => {
                 w.now_ms += *ms;
@@ -188,6 +198,7 @@ fn run_events(cfg: Cfg, evs: &[Ev], want_log: bool) -> RunOut {
                 Ev::Frame(f) => format!("frame[{}] {}", f.len(), hex(f)),
                 Ev::Advance(ms) => format!("advance {} ms", ms),
                 Ev::Jump(ms) => format!("clock jumps {} ms without a poll", ms),
+                Ev::Frames(fs) => format!("{} frames queued before one poll: {}", fs.len(), fs.iter().map(|f| hex(f)).collect::<Vec<_>>().join(" | ")),
             };
             log.push(format!("{:2}: t={}ms {} -> {:?} tx={:?}", i, w.now_ms, what, o, tx.iter().map(|f| pkt::classify(cfg.medium, f)).collect::<Vec<_>>()));
         }
@@ -978,9 +989,27 @@ fn explore(tier: Tier) -> Explored {
         for open in base.seeds.iter().filter(|s| s.name.contains("/tcp-b/") && s.name.ends_with("/open")) {
             let group = open.name.trim_end_matches("open");
             let follow: Vec<&Seed> = base.seeds.iter().filter(|s| s.name.starts_with(group) && !s.name.ends_with("/open")).collect();
+            let sized: Vec<&Seed> = follow.iter().copied().filter(|s| s.name.contains("/w-")).collect();
+            // window-relative data segments in consecutive polls WITHOUT any time advance (the
+            // delayed ACK of the first is still pending when the next arrives), and queued
+            // together before ONE poll (the application has not read in between either)
+            for f1 in &sized {
+                for f2 in &sized {
+                    scripts.push(vec![Ev::Frames(vec![open.frame.clone(), f1.frame.clone(), f2.frame.clone()])]);
+                    if cfg.addrs == 0 && (open.name.contains("/7fffff00/") || open.name.contains("/7fffffe0/")) {
+                        for f3 in &sized {
+                            let fr = |x: &Seed| Ev::Frame(x.frame.clone());
+                            scripts.push(vec![fr(open), fr(f1), fr(f2), fr(f3)]);
+                            scripts.push(vec![fr(open), Ev::Frames(vec![f1.frame.clone(), f2.frame.clone(), f3.frame.clone()])]);
+                            scripts.push(vec![fr(open), fr(f1), Ev::Frames(vec![f2.frame.clone(), f3.frame.clone()])]);
+                        }
+                    }
+                }
+            }
             for f1 in &follow {
                 for f2 in &follow {
                     scripts.push(vec![Ev::Frame(open.frame.clone()), Ev::Frame(f1.frame.clone()), Ev::Frame(f2.frame.clone())]);
+                    scripts.push(vec![Ev::Frame(open.frame.clone()), Ev::Frames(vec![f1.frame.clone(), f2.frame.clone()])]);
                 }
                 // the peer goes silent after the handshake segment: its neighbor entry (60 s)
                 // expires, our retransmission cannot be emitted, then the late segment arrives
@@ -994,6 +1023,24 @@ fn explore(tier: Tier) -> Explored {
                 // thing polled afterwards
                 for j in JUMPS {
                     scripts.push(vec![Ev::Frame(open.frame.clone()), Ev::Jump(j), Ev::Frame(f1.frame.clone())]);
+                }
+            }
+        }
+        {
+            // the same for the connection that is ESTABLISHED in the base state
+            let sized: Vec<&Seed> = base.seeds.iter().filter(|s| s.name.contains("/tcp-w/est/")).collect();
+            let fr = |x: &Seed| Ev::Frame(x.frame.clone());
+            for f1 in &sized {
+                for f2 in &sized {
+                    scripts.push(vec![fr(f1), fr(f2)]);
+                    scripts.push(vec![Ev::Frames(vec![f1.frame.clone(), f2.frame.clone()])]);
+                    if cfg.addrs == 0 {
+                        for f3 in &sized {
+                            scripts.push(vec![fr(f1), fr(f2), fr(f3)]);
+                            scripts.push(vec![Ev::Frames(vec![f1.frame.clone(), f2.frame.clone(), f3.frame.clone()])]);
+                            scripts.push(vec![fr(f1), Ev::Frames(vec![f2.frame.clone(), f3.frame.clone()])]);
+                        }
+                    }
                 }
             }
         }
@@ -1075,10 +1122,10 @@ fn explore(tier: Tier) -> Explored {
 
 pub fn run(tier: Tier) -> i32 {
     let mut rep = Report::new("C03", tier);
-    rep.assumptions.push("bounds: single-frame pass = every seed of the catalogue, every truncation, every single byte of the first 96 bytes (+ DHCP option area, NDISC/DNS message tails, whole 802.15.4 frames) set to the boundary set {0,1,7,8,0x0f,0x28,0x2f,0x3f,0x40,0x7f,0x80,0xf0,0xff,orig^1} (quick) or to all 256 values (thorough), each raw and with all locatable checksums recomputed; thorough adds every pair of positions in the first 40 bytes x every pair of values from {0,1,7,8,0x0f,0x3f,0x40,0x7f,0x80,0xf0,0xff} (checksums recomputed) and all byte strings of length <= 2 (quick: first byte from the boundary set); sequences = BFS to depth 2 (quick) / 3 (thorough) over one representative frame per distinct observable effect (reply classes x changed components) + time advances {0, 1 s, 61 s}; thorough additionally depth 2 over one representative per (effect, seed); lone-fragment seeds and the TCP sequence-space edge seeds (handshake segments placing RCV.NXT at 2^31-0x100, 2^31-0x20, 2^31-1, 2^31 and the same below 2^32, with their follow-up segments) are pinned into the alphabets, every handshake x follow-up x follow-up triple, and every handshake (or, in the variant C worlds, the application's close()) followed by a silence of 61 / 62 / 63 / 64 s and a late segment, or by a clock jump WITHOUT a poll of 2^30, 2^31-1, 2^31, 2^32-1, 2^32, 2^33 or 2^40 ms and a late segment, is run as a scripted sequence; every seed frame is also run after such a clock jump, alone and preceded by itself before the jump; ICMPv4/ICMPv6 error messages are seeded with their quotation cut to every length (outer lengths and checksums consistent); on 802.15.4 single frames whose reply needs 6LoWPAN fragmentation are pinned and all their pairs / triples / quadruples are delivered in consecutive polls; BFS levels are cut by a wall-clock budget only with exhaustive=false reported".into());
+    rep.assumptions.push("bounds: single-frame pass = every seed of the catalogue, every truncation, every single byte of the first 96 bytes (+ DHCP option area, NDISC/DNS message tails, whole 802.15.4 frames) set to the boundary set {0,1,7,8,0x0f,0x28,0x2f,0x3f,0x40,0x7f,0x80,0xf0,0xff,orig^1} (quick) or to all 256 values (thorough), each raw and with all locatable checksums recomputed; thorough adds every pair of positions in the first 40 bytes x every pair of values from {0,1,7,8,0x0f,0x3f,0x40,0x7f,0x80,0xf0,0xff} (checksums recomputed) and all byte strings of length <= 2 (quick: first byte from the boundary set); sequences = BFS to depth 2 (quick) / 3 (thorough) over one representative frame per distinct observable effect (reply classes x changed components) + time advances {0, 1 s, 61 s}; thorough additionally depth 2 over one representative per (effect, seed); lone-fragment seeds and the TCP sequence-space edge seeds (handshake segments placing RCV.NXT at 2^31-0x100, 2^31-0x20, 2^31-1, 2^31 and the same below 2^32, with their follow-up segments) are pinned into the alphabets, every handshake x follow-up x follow-up triple, and every handshake (or, in the variant C worlds, the application's close()) followed by a silence of 61 / 62 / 63 / 64 s and a late segment, or by a clock jump WITHOUT a poll of 2^30, 2^31-1, 2^31, 2^32-1, 2^32, 2^33 or 2^40 ms and a late segment, is run as a scripted sequence; every seed frame is also run after such a clock jump, alone and preceded by itself before the jump; ICMPv4/ICMPv6 error messages are seeded with their quotation cut to every length (outer lengths and checksums consistent); every TCP group (edge handshakes and the established connection) has data segments of 1, half a window, one window, window+1 and 2 windows at RCV.NXT and half a window beyond it, delivered as pairs / triples in consecutive polls without any time advance and queued together before one poll; datagrams to the two echo sockets come from source ports 0xf0b0, 0xf0bf, 0xf0c0, 0xf0ff, 0xf100, 0x1234 (inline and every admissible NHC port form); on 802.15.4 single frames whose reply needs 6LoWPAN fragmentation are pinned and all their pairs / triples / quadruples are delivered in consecutive polls; BFS levels are cut by a wall-clock budget only with exhaustive=false reported".into());
     rep.assumptions.push("world configurations: per medium A, B, C (see module header) and A with IPv4-only / IPv6-only / empty address list; the address-restricted worlds get the complete single-frame pass (thorough: without the pair mutants) and the same sequences; where a world has no address of a family the corresponding probe is not applicable (an unaddressed interface is only held to oracle (1))".into());
     rep.assumptions.push("every injected frame meets a FRESH world in the base state and is followed by the probe; pair mutants and 2-byte raw frames get oracle (1)+(2) only (they are not fingerprinted, so they do not count in 'changed state')".into());
-    rep.assumptions.push("the application model reads and discards received data after every poll and applies DHCP configuration events (IPv4 address, default route) like examples/dhcp_client.rs; trusted: harness frame builders, independent reply classifier".into());
+    rep.assumptions.push("the two echo sockets' application sends every received datagram back to its sender after the poll that delivered it (it leaves in the next poll, at the latest the probe's first); otherwise the application model reads and discards received data after every poll and applies DHCP configuration events (IPv4 address, default route) like examples/dhcp_client.rs; trusted: harness frame builders, independent reply classifier".into());
     rep.assumptions.push("the 802.15.4 worlds used for frame exploration have no joined multicast group (joining one makes the very first poll panic before any frame is received: recorded under notes_outside_C03, not as a violation) and no IPv4; overflow-checks are ON in this profile, so arithmetic overflow on attacker-controlled lengths is observed as a panic".into());
     rep.assumptions.push(format!("hang detection: > {} device calls inside one poll (deterministic), or a single evaluation exceeding {} s wall clock twice (second time alone on a fresh world)", DEVICE_CALL_LIMIT, wd_secs()));
 
